@@ -8,7 +8,8 @@
 
    Covered commands (the ones C02/C03/C19 quantify over), for sessions that selected a
    database with strategy none or newer: set, set-safe, get, get-safe, remove, increment,
-   watch, unwatch, unwatch-all, keys.  Any other line is run atomically with Node.step. *)
+   watch, unwatch, unwatch-all, keys; and use-db (C17: the connection counter and its
+   $connections key).  Any other line is run atomically with Node.step. *)
 From NunDB Require Import Model.Base Model.Pending Model.Parse Model.Node.
 Local Open Scope Z_scope.
 
@@ -26,7 +27,14 @@ Inductive pc :=
 | PcUnwatchAllClone (dbn : str)                          (* watchers.write: clone the map *)
 | PcUnwatchAllKeys (dbn : str) (keys : list str)         (* watchers.write per key *)
 | PcKeys (dbn pattern : str)                             (* map.read *)
-| PcDone.
+| PcUseTok (token name : str) (user : option str)        (* map.read: use-db checks the token / the user's token *)
+| PcPub (dbn : str) (cnt : Z) (opp : N) (k : pubk)       (* map.write: set_connection_counter writes $connections := cnt *)
+| PcPubNotify (dbn : str) (cnt : Z) (nv : Z) (k : pubk)  (* watchers.read: its watchers are told, then the counter is read again *)
+| PcDone
+(* what use-db goes on with once a counter is published *)
+with pubk :=
+| KUseInc (name : str) (user : option str) (rq : request)   (* the previous database is done: select [name], count up, publish *)
+| KFinish (rq : request) (r : resp).
 
 Record thr := mkThr {
   t_sid : nat;
@@ -101,6 +109,32 @@ Definition after_guard (n : node) (t : thr) (rq : request) (dbn : str) : node * 
   | _ => (n, t)
   end.
 
+(* ---- use-db: the counter and its key ------------------------------------------------------
+   set_connection_counter (fix: publish again until what was written is what the counter says):
+   read the counter, Change::new (op id), then -- across a yield point -- write the key. *)
+Definition start_publish (n : node) (t : thr) (dbn : str) (k : pubk) : node * thr :=
+  match get_db n dbn with
+  | Some d => let '(n1, id) := tick n in (n1, park t (PcPub dbn (d_conn d) id k) "map.write")
+  | None => (n, t)
+  end.
+
+(* select [name], count the session in, publish *)
+Definition use_inc (n : node) (t : thr) (name : str) (user : option str) (rq : request) : node * thr :=
+  let c := t_sid t in
+  let n1 := put_sess n c (set_sel (get_sess n c) (Some name)
+                            (match user with Some u => Some u | None => s_user (get_sess n c) end)) in
+  match get_db n1 name with
+  | Some d1 => start_publish (put_db n1 name (db_set_conn d1 (d_conn d1 + 1))) t name (KFinish rq ROk)
+  | None => (n1, finish t ROk)
+  end.
+
+Definition after_publish (n : node) (t : thr) (k : pubk) : node * thr :=
+  match k with
+  | KUseInc name user rq => use_inc n t name user rq
+  | KFinish rq r =>
+      let '(n1, r1) := replicate_request n rq (s_db (get_sess n (t_sid t))) r in (n1, finish t r1)
+  end.
+
 (* start the next command of the thread: everything up to its first yield point *)
 Definition start_cmd (n : node) (t : thr) : node * thr :=
   match t_prog t with
@@ -138,6 +172,11 @@ Definition start_cmd (n : node) (t : thr) : node * thr :=
                   match guard_db n c with
                   | GStop n' r => complete n' t0 rq seldb r
                   | GGo dbn _ => (n, park t0 (PcKeys dbn pattern) "map.read")
+                  end
+              | RqUseDb token name user =>
+                  match get_db n name with
+                  | None => complete n t0 rq seldb (RError "Not a valid database name")
+                  | Some _ => (n, park t0 (PcUseTok token name user) "map.read")
                   end
               | _ =>
                   (* not a scheduled command: run it in one go *)
@@ -269,6 +308,44 @@ Definition release (n : node) (t : thr) : node * thr :=
       | Some d =>
           let ks := keys_fold (list_keys d pattern (s_auth (get_sess n c))) in
           complete (send n c ("keys " +++ ks +++ nlS)) t (RqKeys pattern) seldb (RValue "keys" ks (-1))
+      end
+  | PcUseTok token name user =>
+      let rq := RqUseDb token name user in
+      match get_db n name with
+      | None => complete n t rq seldb (RError "Not a valid database name")
+      | Some d =>
+          let tkey := match user with Some u => "$$user_" +++ u | None => "$$token" end in
+          let valid := match get_value d tkey with
+                       | Some v => String.eqb (v_val v) token
+                       | None => false end in
+          if negb valid then complete n t rq seldb (RError "Invalid token")
+          else
+            (* the session moves away from the database it had selected: count it out there, publish, then go on *)
+            match seldb with
+            | Some prev =>
+                match get_db n prev with
+                | Some dp => start_publish (put_db n prev (db_set_conn dp (d_conn dp - 1))) t prev (KUseInc name user rq)
+                | None => use_inc n t name user rq
+                end
+            | None => use_inc n t name user rq
+            end
+      end
+  | PcPub dbn cnt opp k =>
+      match get_db n dbn with
+      | None => after_publish n t k
+      | Some d =>
+          let '(d1, _, _) := set_value d (mkCh "$connections" (Z_to_str cnt) (-1) opp false) in
+          let nv := match get_value d1 "$connections" with Some v => v_ver v | None => 0 end in
+          (put_db n dbn d1, park t (PcPubNotify dbn cnt nv k) "watchers.read")
+      end
+  | PcPubNotify dbn cnt nv k =>
+      match get_db n dbn with
+      | None => after_publish n t k
+      | Some d =>
+          let n1 := sends n (notify_msgs d "$connections" (Z_to_str cnt) nv) in
+          (* fix: what was written must be what the counter says now, otherwise publish again *)
+          if Z.eqb (d_conn d) cnt then after_publish n1 t k
+          else start_publish n1 t dbn k
       end
   end.
 
